@@ -16,20 +16,31 @@ from .. import c07_eval as evalmod
 from .. import c07_cases as cases
 
 LEVEL = 'exploration'
-RULE = ('every entry of function.HANDLED_FUNCTIONS (reflective; entries without an argument generator are listed as uncovered) plus __getitem__, python operators, '
-        'Array methods and depth-2 compositions over a core subset; operands {constant, Argument, geometry-derived, basis-derived, element-index-derived, raw ndarray} x shapes '
-        '{(),(1,),(3,),(2,1),(1,3),(2,3),(2,2)} (+(2,2,3) and family specific shapes) x dtypes {bool,int,float,complex}; all 49x16 broadcasting/promotion pairs per binary ufunc; '
-        'every axis / axis tuple for reductions; index items {ints -4..3, 125 slices over {None,0,1,-1,2}^3, Ellipsis, newaxis, int/bool index arrays, function-array indices} at every axis '
-        'position of (2,3) and (2,2,3) plus all pairs (17^2) and triples (10^3, thorough 17^3); every reshape target of size 6 (and 12); all transpose permutations; stack/concatenate '
-        'on every axis; 60 einsum signatures; linalg; choose/interp/searchsorted. Every case is evaluated on 3 samples (1 point axis, 2 point axes, boundary). '
-        'distinct_nontrivial = distinct (sample, call tree) whose NumPy reference is defined and that was compared (value+shape+kind) or whose shape rejection was matched')
+RULE = ('every entry of function.HANDLED_FUNCTIONS (reflective; an entry without argument generator is listed under uncovered_functions) plus __getitem__, python operators, '
+        'Array methods/attributes and depth-2 compositions f(g(x)) over a core subset of 26 operations; operand kinds {constant, Argument, geometry-derived, basis-derived, '
+        'element-index-derived, raw ndarray / python scalar / numpy scalar next to a function array} x shapes {(),(1,),(3,),(2,1),(1,3),(2,3),(2,2)} (+(2,2,3) and family specific shapes) '
+        'x dtypes {bool,int,float,complex}; binary ufuncs: all 49 broadcasting shape pairs (thorough: x all 16 dtype pairs; quick: 4 rotating dtype pairs per shape pair plus all 16 on 7 '
+        'representative shape pairs); reductions: every axis incl. negative and out of range, every axis tuple, empty and repeated tuples; index items {ints -4..3, all 125 slices over '
+        '{None,0,1,-1,2}^3 plus 5 out-of-range slices, Ellipsis, newaxis, 10 int and 8 bool index arrays (ndarray and list), True, 5 function-array indices} at every axis position of '
+        '(2,3) and (2,2,3), bare / in a tuple / behind an Ellipsis, plus all pairs over 17 items and all triples over 10 (thorough 17) items; every reshape target of size 6 (and 12) with '
+        'and without -1 from 10 source shapes; all transpose permutations (also negative, invalid); swapaxes all axis pairs; stack/concatenate on every axis (also out of range) with 1-3 '
+        'arrays, mixed dtypes and mismatching shapes; 60 einsum signatures; matmul/dot over 12x12 shapes; linalg det/inv/eig/eigh/norm; take/compress/repeat/broadcast_to/diagonal/trace; '
+        'choose/interp/searchsorted. Every case is evaluated on 3 samples (line: 1 point axis; product of two spaces: 2 point axes; boundary of a 2-D mesh). '
+        'distinct_nontrivial = distinct (sample, call tree) whose NumPy reference is defined and which was compared at every point (value+shape+kind) or whose shape rejection was matched at build time')
 ASSUMPTIONS = ['the NumPy call on the per-point operand values is the reference semantics; operand values themselves come from sample.eval',
-               'element KIND (bool/int/float/complex) is compared, not the width; numpy.linalg.eig is judged as a decomposition because its result kind and order are value dependent',
+               'element KIND (bool/int/float/complex) is compared, not the width; a float16/float32 reference (numpy computes bool/int8 input in low precision) is compared at its own precision',
+               'numpy.linalg.eig is judged as a decomposition (spectrum, A v = v w, unit columns) because its result kind and order are value dependent; eigh eigenvectors are compared up to a unit factor per column',
                'calls that NumPy itself rejects for non-shape reasons (element types, values) or whose reference is not finite are outside the statement and skipped (counted)',
-               'a loud build-time refusal of a documented element-type restriction (complex ordering, logic on non-bool, repeat of a non-singleton axis, norm ord, short compress condition) is counted as unsupported, not as a violation',
+               'a loud build-time refusal of a documented element-type restriction (complex ordering, logic on non-bool, sign/arctan2 of complex) or of an argument form that is not implemented '
+               '(concatenate axis=None, prod/repeat without axis, broadcast_to with an int shape, repeat of a non-singleton axis, norm ord, diagonal/trace of unequal axes, vdot of different shapes, '
+               'searchsorted in an empty list, interp with function-array knots, short compress condition) is counted as unsupported (unsupported_documented_classes), not as a violation',
+               'integer exponents and function-array indices are drawn from operands whose integer bounds nutils can prove (constants, element index): evaluable.Power / NormDim assert provable '
+               'bounds, NumPy decides the same question per value (IndexError / "Integers to negative integer powers")',
+               'numpy.cross is exercised with 3-vectors only (2-vectors were deprecated and are rejected by numpy >= 2.5); 0-d arrays get no integer axis argument (numpy special-cases axis 0/-1 there); '
+               'numpy.linalg.norm gets axis None / int / 2-tuple only',
                'values are drawn from fixed tables of exactly representable numbers kept inside the domain of each function (no division by zero, no NaN, no branch cuts)',
                'float comparison rtol=1e-9, atol=1e-11; bool/int exact']
-BUDGET_S = {'quick': 420, 'thorough': 3000}
+BUDGET_S = {'quick': 900, 'thorough': 3300}
 
 PER_SHARD = {'quick': 1500, 'thorough': 2500}
 
